@@ -265,20 +265,61 @@ def run_native_case(ctx, res, seed, k=None):
     res.case(('native', seed), True, info)
 
 
+def run_deep_case(ctx, res, width, off):
+    """ONE input refined to beta = 18 (37 Leja nodes) on a very wide / narrow domain: the barycentric weights then span hundreds
+    of orders of magnitude unless they are kept scale-free; a quartic in the unit coordinate must still be reproduced with its
+    first and second derivative (x width, x width^2)"""
+    lo = off * width
+    domains = [(lo, lo + width)]
+    q = lambda t: 1 + t - 2 * t ** 2 + 3 * t ** 3 - t ** 4          # noqa: E731
+    dq = lambda t: 1 - 4 * t + 9 * t ** 2 - 4 * t ** 3              # noqa: E731
+    d2q = lambda t: -4 + 18 * t - 12 * t ** 2                       # noqa: E731
+
+    def f(alpha, x):
+        return {'y0': float(q((x['x0'] - lo) / width))}
+    comp, rec = cc.build_component(f, 1, ['y0'], (), (18,), (), domains, None, None, 2, vectorized=False, maxfun=80)
+    for b in range(19):
+        comp.activate_index((), (b,))
+    info = {'deep': True, 'width': width, 'offset_in_widths': off, 'nodes': len(comp.training_data.x_grids['x0'])}
+    rng = random.Random(int(width) % 1000 + int(off * 7))
+    t = np.array([0.03 + 0.94 * rng.random() for _ in range(12)])
+    X = {'x0': lo + t * width}
+    y = np.asarray(comp.predict(X, index_set='train')['y0']).reshape(-1)
+    g = np.asarray(comp.gradient(X, index_set='train')['y0']).reshape(-1) * width
+    h = np.asarray(comp.hessian(X, index_set='train')['y0']).reshape(-1) * width ** 2
+    res_eps = 2.3e-16 * abs(off) * 37 ** 2          # resolution of the mapped coordinates when offset >> width
+    for name, got, exp, tol in (('value', y, q(t), 1e-9 + 1e2 * res_eps), ('gradient', g, dq(t), 1e-6 + 1e4 * res_eps),
+                                ('hessian', h, d2q(t), 1e-2 + 1e6 * res_eps)):
+        bad = [k for k in range(len(t)) if not abs(got[k] - exp[k]) <= tol * 10.0]
+        if bad:
+            res.failures.append({'kind': f'deep-1d-grid-{name}-of-quartic-wrong', 'signature': 'none',
+                                 'input': {**info, 'unit_points': t[bad].tolist()},
+                                 'observed': np.asarray(got)[bad].tolist(), 'expected': np.asarray(exp)[bad].tolist()})
+    res.hit('deep-1d-grid')
+    res.case(('deep', width, off), True, info)
+
+
 def run(ctx: core.Ctx, only=None) -> core.Result:
     res = core.Result()
     res.rule = ('twin components: unit domains vs per-input affine images with widths 1e-9..1e9 and offsets up to 1e6 '
                 'widths, transplanted Leja grids, polynomial models in the surrogate space, random admissible histories; '
                 'points interior / on nodes / near nodes / outside; predictions, gradients (x a), Hessians (x a_m a_n) and '
                 'exactness compared; plus components with the library\'s own Leja grids on narrow / far-offset / huge domains '
-                '(distinct nodes, exact values and gradients of full-tensor polynomials). non-trivial = >= 3 active indices and some width differing from 1 by >= 1e3.')
+                '(distinct nodes, exact values and gradients of full-tensor polynomials); plus ONE input refined to 37 nodes on very wide domains (value, gradient, Hessian of a quartic). non-trivial = >= 3 active indices and some width differing from 1 by >= 1e3.')
     lines, post = [], []
     keys = ('nin', 'beta_lim', 'kpl', 'nout', 'a', 'b', 'nsteps', 'fseed')
     cases = [o.get('input', o) for o in only] if only is not None else core.corpus_cases('C17') + \
         [gen_case(ctx.rng, ctx.quick) for _ in range(ctx.scale(24, 250))]
     if only is None:
         cases = cases + [{'native': ctx.rng.randrange(10 ** 6), 'k': k} for k in range(ctx.scale(8, 16))]
+        cases = cases + [{'deep': True, 'width': w, 'off': o} for w, o in
+                         ([(1e9, 0.0), (1e9, -0.5)] if ctx.quick else [(1e9, 0.0), (1e9, -0.5), (1e9, 3.0), (1e6, 0.0), (1e-3, 0.0),
+                                                                       (1.0, 0.0), (1e4, 2.0)])]
     for case in cases:
+        if 'deep' in case:
+            with core.guarded(res, 'scenario-raised', case):
+                run_deep_case(ctx, res, case['width'], case['off'])
+            continue
         if 'native' in case:
             with core.guarded(res, 'scenario-raised', case):
                 run_native_case(ctx, res, case['native'], case.get('k'))
